@@ -706,6 +706,37 @@ func (e *Env) callExpr(x ECall) Term {
 		}
 		gt := e.lookupType(ts.V)
 		return Term{S: app("=", app("Iface_tag", t.S), fmt.Sprint(fv.tagOf(gt))), Sort: SBool}
+	case "off":
+		// off(b): position of b[0] in its backing array
+		argn(1)
+		t := e.argBytes(x.Args[0])
+		return Term{S: fv.offOf(t), Sort: SInt}
+	case "samearray":
+		// samearray(a, b): a and b are windows of the same backing array with the same content
+		argn(2)
+		a, b := e.argBytes(x.Args[0]), e.argBytes(x.Args[1])
+		return Term{S: smtAnd(app("=", fv.baseOf(a), fv.baseOf(b)), app("=", fv.arrOf(a), fv.arrOf(b))), Sort: SBool}
+	case "arrat":
+		// arrat(b, j): the byte at absolute position j of b's backing array
+		argn(2)
+		t := e.argBytes(x.Args[0])
+		j := e.coerce(e.eval(x.Args[1]), SInt)
+		return Term{S: app("select", fv.arrOf(t), j.S), Sort: fv.elemSort(t.Sort)}
+	case "content":
+		// content(b): ghost content of a *bytes.Buffer
+		argn(1)
+		t := e.eval(x.Args[0])
+		if t.Sort.Kind != KRef {
+			e.fail("content() of %s", t.Sort)
+		}
+		fv.ensureSort(SBytes)
+		h := fv.heapTerm(e.st, "ghost.content", SBytes)
+		ct := Term{S: selStore(h.S, t.S), Sort: SBytes}
+		if k := "wf:" + ct.S + fv.blockKey(); !fv.declared[k] {
+			fv.declared[k] = true
+			fv.assert(fv.wf(ct, nil)) // a buffer's content is a well-formed sequence
+		}
+		return ct
 	case "poolowned":
 		// poolowned(b): the storage of b belongs to a sync.Pool declared with //@ pool
 		argn(1)
